@@ -232,3 +232,65 @@ Proof.
     symmetry. apply existsb_keypers_map. exact Hk.
   - exact Hm.
 Qed.
+
+(* ---------- the error code means "no effect" ---------- *)
+(* Whatever the reason a message is answered with the error code - sender not a keyper, a
+   structurally invalid payload of any type, an unknown eon, a repeated vote - the message
+   handler returns the state it was given and no events. *)
+Ltac err_branch :=
+  let H := fresh "HH" in let Hc := fresh "Hc" in
+  intros H; first [discriminate H | (injection H as <-;
+    unfold err, seen, code_error, code_ok, code_seen in *; cbn [fst snd]; intros Hc;
+    first [discriminate Hc | split; reflexivity])].
+
+Ltac err_branch_l :=
+  let H := fresh "HH" in let Hc := fresh "Hc" in
+  intros H; first [discriminate H | (injection H as <-;
+    unfold err, seen, code_error, code_ok, code_seen in *; cbn [fst snd]; intros Hc;
+    first [discriminate Hc | (split; [reflexivity|left; reflexivity])])].
+
+(* the only error response that is not a pure no-op: a config vote that completes a quorum for
+   a candidate which then fails checkConfig at acceptance leaves the vote table reset (and
+   nothing else changed) *)
+Definition same_but_cfg_voting (a b : state) : Prop := a = set_cfg_voting b (cfg_voting a).
+
+Lemma deliver_message_error_no_effect e s sender p x :
+  deliver_message e s sender p = Some x -> fst (snd x) = code_error ->
+  snd (snd x) = [] /\
+  (fst x = s \/ (exists act ks t i, p = PBatchConfig act ks t i) /\ same_but_cfg_voting (fst x) s).
+Proof.
+  destruct p; simpl.
+  - unfold deliver_batch_config. branches; try (err_branch; fail).
+    all: try (let H := fresh in intros H; first [discriminate H | (injection H as <-;
+      unfold err, seen, code_error, code_ok, code_seen in *; cbn [fst snd]; intros Hc;
+      first [discriminate Hc | (split; [reflexivity|]; first [left; reflexivity | right; split; [do 4 eexists; reflexivity|reflexivity]])])]).
+  - unfold deliver_block_seen. branches; err_branch_l.
+  - unfold deliver_check_in. branches; err_branch_l.
+  - unfold deliver_dkg_result. branches; err_branch_l.
+  - unfold handle_poly_eval. branches; err_branch_l.
+  - unfold handle_poly_commitment. branches; err_branch_l.
+  - unfold handle_accusation. branches; err_branch_l.
+  - unfold handle_apology. branches; err_branch_l.
+  - err_branch_l.
+Qed.
+
+(* A transaction answered with the error code emits no events and changes nothing but (at most)
+   the record of its own (signer, nonce) pair - and, for a config vote only, the vote table. *)
+Theorem error_code_no_effect e s t s' code evs :
+  deliver_tx e s t = Some (s', (code, evs)) -> code = code_error ->
+  evs = [] /\
+  (s' = s \/
+   exists signer chain nonce p, t = Tx signer chain nonce p /\
+     let s1 := set_nonces s ((signer, nonce) :: nonces s) in
+     (s' = s1 \/ (exists act ks th i, p = PBatchConfig act ks th i) /\ same_but_cfg_voting s' s1)).
+Proof.
+  intros H Hc. unfold deliver_tx in H.
+  destruct t as [|signer chain nonce p].
+  - unfold err in H. injection H as <- _ <-. split; [reflexivity|left; reflexivity].
+  - revert H. branches.
+    + unfold err. intros [= <- _ <-]. split; [reflexivity|left; reflexivity].
+    + unfold err. intros [= <- _ <-]. split; [reflexivity|left; reflexivity].
+    + intros H. apply deliver_message_error_no_effect in H; [|exact Hc]. cbn [fst snd] in H.
+      destruct H as [-> H]. split; [reflexivity|]. right. exists signer, chain, nonce, p.
+      split; [reflexivity|]. cbv zeta. destruct H as [->|[Hp Hs]]; [left; reflexivity|right; split; assumption].
+Qed.
